@@ -8,6 +8,8 @@ import PV.Model.Tokens
 import PV.Model.Version
 import PV.Model.RegAlloc
 import PV.Model.RaInsert
+import PV.Model.Fold
+import PV.Gen.Tables
 import PV.DriverRun
 /-! One-JSON-object-in / one-JSON-object-out driver over the executable models. -/
 namespace PV.Driver
@@ -115,6 +117,21 @@ def handleE (j : Json) : Except String Json := do
     let r := PV.RaInsert.addRa name pp code
     pure (Json.mkObj [("ok", Json.arr (r.map (fun i => Json.arr #[Json.str i.op, Json.arr (i.ins.map Json.str).toArray,
       match i.out with | some o => Json.str o | none => Json.null])).toArray)])
+  | "pyfold" =>
+    -- {"table": "bin"|"un", "op": "+", "args": [ints]} -> {"value": int|null, "opcode": …, "run": int|null}: the regenerated lambda
+    -- evaluated by the Python-semantics model, and the paired opcode evaluated by the integer opcode semantics
+    let tbl ← j.getObjValAs? String "table"
+    let op ← j.getObjValAs? String "op"
+    let args ← (← (← j.getObjVal? "args").getArr?).toList.mapM (·.getInt?)
+    let rows := if tbl == "bin" then PV.Gen.binopTable else PV.Gen.unopTable
+    match rows.find? (·.1 == op) with
+    | none => pure (Json.mkObj [("ok", Json.null)])
+    | some (_, opcode, fn) =>
+      let v := (PV.Fold.pyEval args fn).map PV.Fold.PyVal.num
+      let isBool := match PV.Fold.pyEval args fn with | some (.bool _) => true | _ => false
+      let run := if tbl == "bin" then PV.Fold.icAlu opcode args else (match args with | [a] => PV.Fold.icUnop opcode a | _ => none)
+      let jo (x : Option Int) := match x with | some n => Json.num (JsonNumber.fromInt n) | none => Json.null
+      pure (Json.mkObj [("ok", Json.mkObj [("value", jo v), ("is_bool", Json.bool isBool), ("opcode", Json.str opcode), ("run", jo run)])])
   | "check-fall" => do pure (Json.mkObj [("ok", ← PV.DriverRun.checkFallCmd j)])
   | "run-regions" => do pure (Json.mkObj [("ok", ← PV.DriverRun.runRegions j)])
   | "check-alloc" => do pure (Json.mkObj [("ok", ← PV.DriverRun.checkAlloc j)])
